@@ -69,11 +69,14 @@ def run(ctx):
     ww = ctx.fn(SM + '::WriteWord(unsigned int,unsigned short)')
     ctx.inst(V2)
     want_r = '(return (| (<< ([] %s (+ (* $0 2) 1)) 8) ([] %s (* $0 2))))' % (RAW, RAW)
-    tr = render_stmt(rw['body'], rw)
+    def _x2(t_):
+        # w << 1 is w * 2
+        return t_.replace('(<< $0 1)', '(* $0 2)')
+    tr = _x2(render_stmt(rw['body'], rw))
     if want_r not in tr and want_r.replace('(* $0 2)', '(* 2 $0)') not in tr:
         ctx.report(V2, rw, rw['body'], 'ReadWord', 'word is not raw[2w] | raw[2w+1] << 8: ' + tr[:200])
     ctx.inst(V2)
-    tw = render_stmt(ww['body'], ww)
+    tw = _x2(render_stmt(ww['body'], ww))
     a = '(= ([] %s (* $0 2)) (& $1 255))' % RAW
     b = '(= ([] %s (+ (* $0 2) 1)) (>> $1 8))' % RAW
     if not ((a in tw or a.replace('(* $0 2)', '(* 2 $0)').replace('(& $1 255)', '(& 255 $1)') in tw or a.replace('(& $1 255)', '(& 255 $1)') in tw) and (b in tw or b.replace('(* $0 2)', '(* 2 $0)') in tw)):
